@@ -217,7 +217,8 @@ def end_checks(ex, s2, kind, val, inputs, N, J, where='end'):
         if isinstance(out, Arr):
             ex.require(s2, z3.Implies(inA, ex.stat(s2, out) == LIVE), 'returned array has a slot that is not initialised', where)
         for A in inputs:
-            ex.require(s2, z3.Implies(inA, z3.Or(s2.status[A] == EXTERN, s2.status[A] == DROPPED)), 'input element neither handed to the closure nor dropped', where)
+            # (UNINIT: the slot's value was moved out wholesale, e.g. an array mapped in place and returned as the output)
+            ex.require(s2, z3.Implies(inA, z3.Or(s2.status[A] == EXTERN, s2.status[A] == DROPPED, s2.status[A] == UNINIT)), 'input element neither handed to the closure nor dropped', where)
         if ex.order:
             for A in inputs:
                 ex.require(s2, z3.Implies(inA, s2.status[A] == EXTERN), 'an input element was not passed to the caller\'s function (not applied once per index)', where)
@@ -354,6 +355,48 @@ def iter_clone(fns, src, nmax, name=None):
         cur = s2.get(it, ())
         ex.require(s2, z3.And(cur[1] == I, cur[2] == B), 'original iterator position changed by clone', 'end')
         ex.require(s2, ex.stat(s2, ex.V) != HELD, 'a cloned value was lost', 'end')
+    return finish(res, ex, t0, paths, unw)
+
+
+@guarded
+def iter_clone_from(fns, src, nmax, name=None):
+    """`dst.clone_from(&src)` on two by-value iterators at arbitrary positions, if the crate overrides it (the trait default is
+    `*self = source.clone()`: scenario iter.clone plus the iterator's Drop). T::clone and the destructors of the items `dst` still holds
+    may panic; afterwards the owner drops `dst` - nothing may be dropped twice, and after a normal return `dst` holds exactly as many
+    items as `src`, which is untouched."""
+    N, I, B, I2, B2, J = syms('N', 'index', 'index_back', 'src_index', 'src_index_back', 'J')
+    res = Result(name or 'iter.clone_from', ['C04', 'C05', 'C06'], 'N <= %d, every position of both iterators, T::clone and element destructors may panic' % nmax)
+    ex = Exec(fns, src, J, N, nmax=nmax)
+    ex.V = Arr('Cl', bv(2 ** 63))
+    t0, paths, unw = time.time(), 0, 0
+    key = ('Clone', 'GenericArrayIter', 'clone_from')
+    if key not in ex.index:
+        res.bounds += '; the crate does not override clone_from for the iterator (trait default: `*self = source.clone()`, see iter.clone and iter.drop)'
+        return finish(res, ex, t0, 0, 0)
+    A, S = Arr('A', N), Arr('Source', N)
+    st = new_state()
+    bounded(ex, st, N, nmax)
+    dst = iter_state(ex, st, A, I, B, N, J)
+    st.pc += [ULE(I2, B2), ULE(B2, N)]
+    st.status[S] = z3.If(z3.And(ULE(I2, J), ULT(J, B2)), LIVE, EXTERN)
+    srci = st.new_cell({0: S, 1: I2, 2: B2})
+    fn = ex.pick(ex.index[key])
+    for (s2, kind, val) in ex.run_fn(st, fn, [Ref(dst, ()), Ref(srci, ())]):
+        paths += 1
+        unw += kind == 'unwind'
+        cur, cs = s2.get(dst, ()), s2.get(srci, ())
+        ex.require(s2, z3.And(cs[1] == I2, cs[2] == B2), 'clone_from changed the position of its source', 'end(%s)' % kind)
+        ex.require(s2, z3.Implies(z3.And(ULE(I2, J), ULT(J, B2)), ex.stat(s2, S) == LIVE), 'clone_from consumed or dropped an element of its source', 'end(%s)' % kind)
+        if kind == 'ret':
+            ex.require(s2, z3.And(ULE(cur[1], cur[2]), ULE(cur[2], N)), 'iterator invariant index <= index_back <= N broken', 'post')
+            ex.require(s2, cur[2] - cur[1] == B2 - I2, 'after clone_from the receiver has a different number of remaining elements than the source', 'post')
+        s2.events.append('[%s] owner drops the receiver' % kind)
+        for (s3, k3, _) in ex.run_fn(s2, ex.pick(ex.index[('Drop', 'GenericArrayIter', 'drop')]), [Ref(dst, ())]):
+            if kind == 'ret' and k3 == 'ret':
+                for arr, stt in s3.status.items():
+                    if arr is not S and arr is not ex.V:
+                        ex.require(s3, z3.Implies(ULT(J, N), stt != LIVE), 'an element of the receiver is still alive when everything is gone (leak)', 'end of scenario')
+                ex.require(s3, ex.stat(s3, ex.V) != HELD, 'a clone was lost (neither stored nor dropped)', 'end of scenario')
     return finish(res, ex, t0, paths, unw)
 
 
